@@ -18,6 +18,8 @@ import (
 	"os"
 	"path/filepath"
 	"strings"
+	"sync"
+	"sync/atomic"
 	"time"
 
 	"verif/harness/symhash"
@@ -260,10 +262,8 @@ func apiDriver(args []string) error {
 		reqs := append(seedReqs, apiMatrix(rng, cur+4-1, known)...)
 		// every file runs a slice of the matrix (plus the seeds)
 		alive := true
-		for i, r := range reqs {
-			if i >= len(seedReqs) && (i%*files != 0 && *files > 1) {
-				continue
-			}
+		// one recorded request: version before, the request, version after, restart if the node is gone
+		step := func(r apiReq) bool {
 			before, ok := a.version()
 			if !ok {
 				alive = false
@@ -287,10 +287,63 @@ func apiDriver(args []string) error {
 				if !a.start() {
 					tw.Emit(trace.Ev{"a": "replay_failed"})
 					alive = false
-					break
+					return false
 				}
 				alive = true
 			}
+			return true
+		}
+		for i, r := range reqs {
+			if i >= len(seedReqs) && (i%*files != 0 && *files > 1) {
+				continue
+			}
+			if !step(r) {
+				break
+			}
+		}
+		// insertions while other clients keep asking for the membership of a very large key (the
+		// server hashes the key inside the query): every insertion must still be served
+		if alive {
+			big := make([]byte, 6<<20)
+			rng.Read(big)
+			bigBody := []byte(`{"Key":"` + b64(big) + `"}`)
+			stop := make(chan struct{})
+			var wg sync.WaitGroup
+			var served int32
+			for g := 0; g < 3; g++ {
+				wg.Add(1)
+				go func() {
+					defer wg.Done()
+					hc := &http.Client{Timeout: 20 * time.Second}
+					for {
+						select {
+						case <-stop:
+							return
+						default:
+						}
+						req, _ := http.NewRequest("POST", "http://"+a.api+"/proofs/membership", bytes.NewReader(bigBody))
+						if resp, err := hc.Do(req); err == nil {
+							ioutil.ReadAll(resp.Body)
+							resp.Body.Close()
+							atomic.AddInt32(&served, 1)
+						} else {
+							time.Sleep(50 * time.Millisecond)
+						}
+					}
+				}()
+			}
+			// insertions go on until the readers have been served a dozen times (so that insertions
+			// arrive at every phase of such a query), bounded by count and time
+			t0 := time.Now()
+			for k := 0; k < 60 && alive && (k < 8 || (atomic.LoadInt32(&served) < 12 && time.Since(t0) < 20*time.Second)); k++ {
+				d := make([]byte, 32)
+				rng.Read(d)
+				if !step(apiReq{"api", "POST", "/events", strp(`{"Event":"` + b64(symhash.EventFor(d)) + `"}`), "add_during_big_key_reads", 1}) {
+					break
+				}
+			}
+			close(stop)
+			wg.Wait()
 		}
 		// liveness probe + restart (log replay)
 		for phase := 0; phase < 2 && alive; phase++ {
